@@ -36,6 +36,8 @@ def main():
         elif int(n) >= 3:  # second round: seeded/<ID>-3 and -4 come from /tmp/seed2-<ID>-out/{patch,demo,notes}{1,2}
             src = '/tmp/seed2-%s-out' % ID
             n = str(int(n) - 2)
+        if rec.get('src'):  # explicit source (targeted rounds): [directory, N]
+            src, n = rec['src'][0], str(rec['src'][1])
         dst = os.path.join(HERE, 'seeded', key)
         if os.path.isdir(src):
             os.makedirs(dst, exist_ok=True)
